@@ -32,9 +32,7 @@ def _jr(r, j=fpgen.obs_json):
 
 def run(ctx):
     ok, res = core.proof_step(ctx)
-    st = State(ctx)
-    for sec in (sec_indices, sec_dense, sec_csr, sec_bitstring, sec_rdkit, sec_pickle, sec_files, sec_dtype_limit, sec_history):
-        sec(st)
+    st = build_state(ctx)
     for k in st.cases[:2] + st.cases[len(st.cases) // 3:len(st.cases) // 3 + 2] + st.cases[-2:]:
         ctx.sample({'case': k[0], 'input_and_implementation_result': st.payloads[k[0]], 'model_check': k[1][:400]})
     nbad = core.compare_cases(ctx, st.cases, IMPORTS, 'C10 representations', st.payloads, model_expr=st.mexpr,
@@ -57,8 +55,19 @@ def run(ctx):
         'RDKit vectors given to from_rdkit have on-bits below 2^31 (SetBitsFromList cannot set larger ones)',
         'property values are compared through a canonical rendering (type name + repr, containers recursively)',
         'a fingerprint is an immutable value in the model: independence of a conversion from the conversions made before on the same object is tied by the history section (implementation vs fresh copy vs model), not by a theorem']
+    ctx.coverage['trusted_base'] = list(ctx.coverage.get('trusted_base', [])) + [
+        'hypothesis of pickle_rt / pickle_keeps / file_rt / filez_rt / file_carries_meta: forall s, pkl_loads (pkl_dumps s) = s  (Python pickle, protocols 0-5, on the state dictionary of a fingerprint; exercised by the correspondence only)',
+        'hypothesis of file_rt / filez_rt / file_carries_meta: forall e l, file_read e (file_write e l) = l  (smart_open + plain / gzip / bz2 by extension: the pickles written are the pickles read, in order; exercised by the correspondence only)',
+        'the correspondence evaluates pickle_roundtrip / file_roundtrip / filez_roundtrip = the codec-parametric functions at the identity codec (theorem evaluated_instance)']
     if not ok:
         core.report_broken_proof(ctx, res, found_input)
+
+
+def build_state(ctx):
+    st = State(ctx)
+    for sec in (sec_indices, sec_dense, sec_csr, sec_bitstring, sec_rdkit, sec_pickle, sec_files, sec_dtype_limit, sec_history):
+        sec(st)
+    return st
 
 
 class State(object):
@@ -631,7 +640,6 @@ def sec_dtype_limit(st):
 
 
 def replay(ctx, path):
-    import json
-    d = json.load(open(path))
-    print(json.dumps(d, indent=1)[:6000])
-    return 0
+    """bin/check C10 --replay FILE: regenerate the recorded case (seed and tier from the file), drive the implementation and the
+    model again; exit 1 with a VIOLATION line if it still fails."""
+    return fpio.replay_regenerate('C10', path, build_state, IMPORTS, 'C10 representations')
